@@ -233,6 +233,8 @@ def tasks(tier, seed):
                               max_paths=6000, deadline_s=500, vc_timeout_ms=30000))
     T.append(Task('independent_rows', h_rows, (), tier='B'))
     T.append(Task('rt/enumeration', rt_real, (seed, 60 if tier == 'quick' else 400), tier='R', kind='rt', deadline_s=600))
+    from specs import reuse as _reuse
+    T.append(Task('rt/object-reuse', _reuse.rt_planner_reuse, ('C16', ['MultichainPolicyIteration'], seed), tier='R', kind='rt', note='planner objects, earlier results and model objects across calls'))
     return T
 
 
